@@ -10,7 +10,8 @@
 // the Lean model -- on every real output.
 //
 //	sort    txs=<id:ph.idx/ph.idx;id:;...> got=<id,id,...>     wtxmgr.DependencySort on a fresh map
-//	unmined txs=...                         got=...             Store.UnminedTxs on a real store (bdb)
+//	unmined [cr=none|all|odd|first] txs=... got=...             Store.UnminedTxs on a real store (bdb); cr selects which
+//	                                                            outputs are also registered as wallet credits (AddCredit)
 //	reply: n=<n> perm=<0|1> pf=<0|1> member=<1|na>
 //
 // Ids < extBase name transactions of the set; a `ph` that is not an id of the set is a transaction outside the set.
@@ -284,7 +285,32 @@ type liveStore struct {
 	ns []byte
 }
 
-func (b *built) newStore(db walletdb.DB, nsName []byte, rng *rand.Rand) (*liveStore, error) {
+// credited says whether output idx of transaction id is registered as a wallet credit (AddCredit) in mode cr.
+// UnminedTxs must order by spends whether or not the spent outputs are wallet credits.
+func credited(cr string, id, idx int) bool {
+	switch cr {
+	case "all":
+		return true
+	case "odd":
+		return (id+idx)%2 == 1
+	case "first":
+		return idx == 0
+	}
+	return false
+}
+
+var creditModes = []string{"none", "all", "odd", "first"}
+
+func validCredit(cr string) bool {
+	for _, m := range creditModes {
+		if m == cr {
+			return true
+		}
+	}
+	return false
+}
+
+func (b *built) newStore(db walletdb.DB, nsName []byte, rng *rand.Rand, cr string) (*liveStore, error) {
 	ls := &liveStore{db: db, ns: nsName}
 	err := walletdb.Update(db, func(tx walletdb.ReadWriteTx) error {
 		ns, err := tx.CreateTopLevelBucket(nsName)
@@ -306,6 +332,13 @@ func (b *built) newStore(db walletdb.DB, nsName []byte, rng *rand.Rand) (*liveSt
 			}
 			if err := ls.s.InsertTx(ns, rec, nil); err != nil {
 				return err
+			}
+			for o := range rec.MsgTx.TxOut {
+				if credited(cr, b.txs[k].id, o) {
+					if err := ls.s.AddCredit(ns, rec, nil, uint32(o), o%2 == 1); err != nil {
+						return err
+					}
+				}
 			}
 		}
 		return nil
@@ -482,6 +515,13 @@ func (r *runner) Exec(op string) (string, string) {
 	if !ok {
 		return "bad-op", ""
 	}
+	cr := "none"
+	if v, has := kv["cr"]; has {
+		if name != "unmined" || !validCredit(v) {
+			return "bad-op", ""
+		}
+		cr = v
+	}
 	b, ok := build(txs)
 	if !ok {
 		// a cyclic spend graph cannot be realised with real transaction hashes
@@ -509,7 +549,7 @@ func (r *runner) Exec(op string) (string, string) {
 		}
 	} else {
 		r.n++
-		ls, err := b.newStore(r.database(), []byte(fmt.Sprintf("ns%d", r.n)), r.rng)
+		ls, err := b.newStore(r.database(), []byte(fmt.Sprintf("ns%d", r.n)), r.rng, cr)
 		if err != nil {
 			return "store-error", fmt.Sprintf("C14 key=UnminedTxs.store-error: %v", err)
 		}
@@ -740,6 +780,7 @@ func (e engine) Generate(rng *rand.Rand, tier string) []core.Case {
 	defer gr.Close()
 	gr.rng = rng // generation-time randomness from the seed (Go's map order stays random: that is the point)
 
+	allCredits := false
 	emit := func(txs []txd, tags []string, maxDistinct int) {
 		b, ok := build(txs)
 		if !ok {
@@ -750,13 +791,20 @@ func (e engine) Generate(rng *rand.Rand, tier string) []core.Case {
 			reps *= 3
 		}
 		txsS := fmtTxs(txs)
-		for _, kind := range []string{"sort", "unmined"} {
+		kinds := []string{"sort", "unmined cr=" + creditModes[rng.Intn(len(creditModes))]}
+		if allCredits {
+			kinds = []string{"sort"}
+			for _, m := range creditModes {
+				kinds = append(kinds, "unmined cr="+m)
+			}
+		}
+		for _, kind := range kinds {
 			seen := map[string]bool{}
 			var ls *liveStore
-			if kind == "unmined" {
+			if strings.HasPrefix(kind, "unmined") {
 				gr.n++
 				var err error
-				ls, err = b.newStore(gr.database(), []byte(fmt.Sprintf("g%d", gr.n)), rng)
+				ls, err = b.newStore(gr.database(), []byte(fmt.Sprintf("g%d", gr.n)), rng, strings.TrimPrefix(kind, "unmined cr="))
 				if err != nil {
 					ops = append(ops, fmt.Sprintf("%s txs=%s got=panic", kind, txsS))
 					continue
@@ -811,9 +859,11 @@ func (e engine) Generate(rng *rand.Rand, tier string) []core.Case {
 		}
 	}
 
+	allCredits = true
 	for _, s := range fixedShapes() {
 		emit(relabel(rng, s), classify(s, map[string]bool{"fixed": true}), 24)
 	}
+	allCredits = false
 	// exhaustive small scope
 	exN, exM := 3, 2
 	if tier == "thorough" {
@@ -856,7 +906,8 @@ func (e engine) Generate(rng *rand.Rand, tier string) []core.Case {
 		"sorted txs=0: got=0",
 		"unmined txs=a: got=0",
 		"unmined txs=0:1.x got=0",
-		"",
-	}[:8]})
+		"unmined cr=some txs=0: got=0",
+		"sort cr=all txs=0: got=0",
+	}})
 	return cases
 }
